@@ -1315,6 +1315,61 @@ func (rn *runner) runBehaviour(b behaviour) {
 				return
 			}
 
+		case "CStartPH":
+			var a struct {
+				C int    `json:"c"`
+				M phArgs `json:"m"`
+			}
+			must(json.Unmarshal(st.Args, &a))
+			ph := w.ProposedHeader(a.M.Hdr, a.M.R, a.M.Prop, a.M.Sig, a.M.HashOK)
+			cctx, ccancel := context.WithCancel(r.ctx)
+			cc := &concCall{done: make(chan string, 1), atGate: make(chan struct{}), release: make(chan struct{}), cancel: ccancel}
+			r.calls[a.C] = cc
+			r.gateMu.Lock()
+			r.gateOwner = cc
+			r.gateMu.Unlock()
+			go func() {
+				cc.done <- phResNames[r.m.HandleProposedHeader(cctx, ph)]
+			}()
+			select {
+			case <-cc.atGate:
+				gotRes = "parked"
+			case res := <-cc.done:
+				gotRes = res
+				delete(r.calls, a.C)
+			case <-time.After(10 * time.Second):
+				rn.out.Emit(vc.M{"kind": "inconclusive", "beh": b.ID, "step": i, "why": "HandleProposedHeader neither reached the gate nor returned"})
+				return
+			}
+
+		case "CFinishPH":
+			var a struct {
+				C int `json:"c"`
+			}
+			must(json.Unmarshal(st.Args, &a))
+			cc := r.calls[a.C]
+			if cc == nil {
+				rn.out.Emit(vc.M{"kind": "inconclusive", "beh": b.ID, "step": i, "why": "no parked HandleProposedHeader call for this caller"})
+				return
+			}
+			nAdd := r.count("AddPH")
+			cc.release <- struct{}{}
+			select {
+			case res := <-cc.done:
+				gotRes = res
+				delete(r.calls, a.C)
+			case <-time.After(10 * time.Second):
+				rn.out.Emit(vc.M{"kind": "inconclusive", "beh": b.ID, "step": i, "why": "parked HandleProposedHeader call did not return"})
+				return
+			}
+			if gotRes == "Accepted" {
+				// the add request is fire-and-forget: wait until the kernel has worked on it
+				if !r.waitCount("AddPH", nAdd, 10*time.Second) {
+					rn.out.Emit(vc.M{"kind": "inconclusive", "beh": b.ID, "step": i, "why": "AddPH event not observed after Accepted"})
+					return
+				}
+			}
+
 		case "CFinish", "CAbandon":
 			var a struct {
 				C int `json:"c"`
@@ -1495,7 +1550,7 @@ func (rn *runner) runBehaviour(b behaviour) {
 		expRes := resString(st.Res)
 		if st.CrashAt == 0 && !diverged {
 			switch st.Op {
-			case "Vote", "PH", "Replay", "CStart", "CFinish", "CAbandon":
+			case "Vote", "PH", "Replay", "CStart", "CFinish", "CAbandon", "CStartPH", "CFinishPH":
 				if expRes != gotRes {
 					rn.nMismatch++
 					rn.out.Emit(vc.M{"kind": "mismatch", "beh": b.ID, "step": i, "op": st.Op, "args": st.Args,
